@@ -1,1 +1,325 @@
-/-! STUB — property C11 is not built yet. -/
+import Martian.Lemmas.Grpc
+/-!
+# C11 — gRPC reframing is invariant to DATA fragmentation and compression
+
+Theorems about the executable model `Martian.Grpc` (`Model/Grpc.lean`) of `h2/grpc/grpc.go`.
+They hold for every compression library (`cd : Codec`); the wire round trip assumes
+`cd.RoundTrip` explicitly. Vocabulary (`GMsg`, `stream`, `expCalls`, `runFrames`, `emit`,
+`Stream.run`) is defined in the model file.
+
+An END_STREAM on an *empty* DATA frame while no message is pending is turned by the code into
+`processor.Message(nil, true)` (known finding F11b). The two clauses it falsifies are kept as
+`def … : Prop` with a `…_counterexample`, and proved as `…_partial` for every other input.
+-/
+namespace Martian.Props.C11
+open Martian Martian.Grpc
+
+/-- a new adapter of a gRPC stream whose header block selected encoding `e` -/
+def fresh (e : Enc) : Adapter := { enc := e }
+
+/-- cut a byte string into consecutive pieces of the given lengths (the last piece is the
+remainder): every cut set of `s` is `cut ks s` for some `ks` -/
+def cut : List Nat → Bytes → List Bytes
+  | [], s => [s]
+  | k :: ks, s => s.take k :: cut ks (s.drop k)
+
+theorem cut_flatten (ks : List Nat) (s : Bytes) : (cut ks s).flatten = s := by
+  induction ks generalizing s with
+  | nil => simp [cut]
+  | cons k ks ih => simp [cut, ih]
+
+theorem cut_ne_nil (ks : List Nat) (s : Bytes) : cut ks s ≠ [] := by
+  cases ks <;> simp [cut]
+
+/-! ## 1. streaming = batch -/
+
+/-- One DATA frame `x ++ y` has the same effect (calls, order, end-of-stream flags, final state,
+error) as the frame `x` followed by the frame `y` carrying the END_STREAM flag of the whole —
+for every adapter state, every codec, every split point. -/
+theorem streaming_eq_batch (cd : Codec) (a : Adapter) (x y : Bytes) (es : Bool) (h : y ≠ [] ∨ es = false) :
+    data cd a (x ++ y) es = (data cd a x false).andThen (fun a' => data cd a' y es) :=
+  data_append cd a x y es h
+
+/-- Any DATA frame sequence (any number of frames, empty frames allowed anywhere but at an
+END_STREAM) is equivalent to the single frame carrying the concatenation. -/
+theorem frames_eq_batch (cd : Codec) (a : Adapter) (fs : List Bytes) (es : Bool) (hne : fs ≠ [])
+    (hl : es = false ∨ fs.getLast? ≠ some []) :
+    runFrames cd a fs es = data cd a fs.flatten es :=
+  runFrames_eq_data cd a fs es hne hl
+
+/-- Two ways of cutting the same bytes are indistinguishable. -/
+theorem cut_sets_equivalent (cd : Codec) (a : Adapter) (fs gs : List Bytes) (es : Bool)
+    (hf : fs ≠ []) (hg : gs ≠ []) (hfl : es = false ∨ fs.getLast? ≠ some [])
+    (hgl : es = false ∨ gs.getLast? ≠ some []) (h : fs.flatten = gs.flatten) :
+    runFrames cd a fs es = runFrames cd a gs es := by
+  rw [frames_eq_batch cd a fs es hf hfl, frames_eq_batch cd a gs es hg hgl, h]
+
+/-! ## 2. the processor is shown exactly the messages -/
+
+/-- The whole stream in one DATA frame: the processor is shown exactly the decompressed
+messages, in order, end-of-stream on the last one only; the adapter is between messages after. -/
+theorem batch_shows_messages (cd : Codec) (e : Enc) (ms : List GMsg) (es : Bool) (hne : ms ≠ [])
+    (hok : ∀ m ∈ ms, m.ok cd e) :
+    ∃ a', data cd (fresh e) (stream ms) es = ⟨expCalls ms es, some a'⟩ ∧ a'.atRest ∧ a'.enc = e :=
+  data_stream cd es ms hne (fresh e) ⟨rfl, rfl⟩ hok
+
+/-- Full statement: for every message sequence and every way of cutting its byte stream into
+DATA frames with END_STREAM on the last frame, the processor is shown exactly the messages. -/
+def FragmentationInvariant (cd : Codec) : Prop :=
+  ∀ (e : Enc) (ms : List GMsg) (fs : List Bytes), (∀ m ∈ ms, m.ok cd e) → fs ≠ [] → fs.flatten = stream ms →
+    (runFrames cd (fresh e) fs true).calls = expCalls ms true
+
+/-- `FragmentationInvariant` for every cut whose END_STREAM frame is not empty (END_STREAM on
+the last DATA frame of the data). Excluded: exactly the class of F11b. -/
+theorem fragmentation_invariant_partial (cd : Codec) (e : Enc) (ms : List GMsg) (fs : List Bytes)
+    (hok : ∀ m ∈ ms, m.ok cd e) (hne : fs ≠ []) (hfl : fs.flatten = stream ms)
+    (hlast : fs.getLast? ≠ some []) :
+    ∃ a', runFrames cd (fresh e) fs true = ⟨expCalls ms true, some a'⟩ ∧ a'.atRest ∧ a'.enc = e := by
+  have hms : ms ≠ [] := by
+    intro h
+    have := flatten_ne_nil_of_getLast fs hne hlast
+    rw [hfl, h] at this
+    exact this rfl
+  rw [frames_eq_batch cd _ fs true hne (Or.inr hlast), hfl]
+  exact batch_shows_messages cd e ms true hms hok
+
+/-- Frames that do not end the stream, cut in any way whatsoever (no side condition). -/
+theorem fragmentation_invariant_open_stream (cd : Codec) (e : Enc) (ms : List GMsg) (fs : List Bytes)
+    (hok : ∀ m ∈ ms, m.ok cd e) (hfl : fs.flatten = stream ms) :
+    ∃ a', runFrames cd (fresh e) fs false = ⟨expCalls ms false, some a'⟩ ∧ a'.atRest ∧ a'.enc = e := by
+  cases fs with
+  | nil =>
+    have : ms = [] := by
+      cases ms with
+      | nil => rfl
+      | cons m ms => exact absurd hfl.symm (stream_ne_nil _ (by simp))
+    subst this
+    exact ⟨fresh e, by simp [runFrames, expCalls], ⟨rfl, rfl⟩, rfl⟩
+  | cons f fs =>
+    rw [frames_eq_batch cd _ (f :: fs) false (by simp) (Or.inl rfl), hfl]
+    exact data_stream_false cd ms (fresh e) ⟨rfl, rfl⟩ hok
+
+/-- The same in terms of cut sets: for all piece lengths `ks`. -/
+theorem fragmentation_invariant_cuts_partial (cd : Codec) (e : Enc) (ms : List GMsg) (ks : List Nat)
+    (hok : ∀ m ∈ ms, m.ok cd e) (hlast : (cut ks (stream ms)).getLast? ≠ some []) :
+    (runFrames cd (fresh e) (cut ks (stream ms)) true).calls = expCalls ms true := by
+  obtain ⟨a', h, _⟩ := fragmentation_invariant_partial cd e ms (cut ks (stream ms)) hok (cut_ne_nil _ _)
+    (cut_flatten _ _) hlast
+  rw [h]
+
+/-- F11b: the code as it is violates the full statement, whatever the compression library:
+the stream without messages ended by an empty DATA frame shows one (empty) message. -/
+theorem fragmentation_invariant_counterexample (cd : Codec) : ¬ FragmentationInvariant cd := by
+  intro h
+  have := h .identity [] [[]] (by simp) (by simp) (by simp [stream])
+  rw [show runFrames cd (fresh .identity) [[]] true = data cd (fresh .identity) [] true from rfl,
+    data_nil_true cd (fresh .identity) ⟨rfl, rfl⟩] at this
+  simp [expCalls] at this
+
+/-! ## 3. an end-of-stream that carries no message adds no message (F11b: open finding) -/
+
+/-- Full statement: after any frames carrying exactly `ms`, an empty DATA frame with END_STREAM
+shows the processor nothing but `ms`. -/
+def EmptyEosAddsNoMessage (cd : Codec) : Prop :=
+  ∀ (e : Enc) (ms : List GMsg) (fs : List Bytes), (∀ m ∈ ms, m.ok cd e) → fs.flatten = stream ms →
+    (runFrames cd (fresh e) (fs ++ [[]]) true).calls.map (·.data) = ms.map (·.plain)
+
+/-- What the code does instead (for every input of this class): all messages are shown
+correctly, none with end-of-stream, followed by exactly one spurious empty message that carries
+the end-of-stream (and is re-emitted with the compressed flag of the previous message). -/
+theorem empty_eos_frame_partial (cd : Codec) (e : Enc) (ms : List GMsg) (fs : List Bytes)
+    (hok : ∀ m ∈ ms, m.ok cd e) (hfl : fs.flatten = stream ms) :
+    ∃ a', runFrames cd (fresh e) (fs ++ [[]]) true
+        = ⟨expCalls ms false ++ [⟨a'.compressed, [], true⟩], some a'⟩ ∧ a'.atRest := by
+  obtain ⟨a', h1, h2, _⟩ := fragmentation_invariant_open_stream cd e ms fs hok hfl
+  refine ⟨a', ?_, h2⟩
+  cases fs with
+  | nil =>
+    simp only [runFrames] at h1
+    have : a' = fresh e := by simpa using (congrArg Res.next h1).symm
+    subst this
+    have hms : expCalls ms false = [] := by simpa using (congrArg Res.calls h1).symm
+    simp [runFrames, data_nil_true cd _ h2, hms]
+  | cons f fs =>
+    rw [runFrames_snoc cd _ (f :: fs) (by simp) [] true, h1]
+    simp [Res.andThen, data_nil_true cd a' h2]
+
+theorem empty_eos_adds_no_message_counterexample (cd : Codec) : ¬ EmptyEosAddsNoMessage cd := by
+  intro h
+  have := h .identity [] [] (by simp) (by simp [stream])
+  rw [show runFrames cd (fresh .identity) ([] ++ [[]]) true = data cd (fresh .identity) [] true from rfl,
+    data_nil_true cd (fresh .identity) ⟨rfl, rfl⟩] at this
+  simp at this
+
+/-- the same after one ordinary message `A`, cut anywhere (concrete witness replayed on the
+implementation by `corpus/C11/directed.ops`): the processor is shown two messages. -/
+theorem empty_eos_adds_no_message_counterexample_after_message (cd : Codec) :
+    (runFrames cd (fresh .identity) [[0, 0, 0, 0, 1, 0x41], []] true).calls
+      = [⟨false, [0x41], false⟩, ⟨false, [], true⟩] := by
+  have hok : ∀ m ∈ [(⟨false, [0x41], [0x41]⟩ : GMsg)], m.ok cd .identity := by
+    intro m hm; simp at hm; subst hm; simp [GMsg.ok, decode]
+  obtain ⟨a', h, _⟩ := empty_eos_frame_partial cd .identity [⟨false, [0x41], [0x41]⟩] [[0, 0, 0, 0, 1, 0x41]] hok
+    (by simp [stream, GMsg.frame, putBe32])
+  have h' := congrArg Res.calls h
+  have hn := congrArg Res.next h
+  simp only [List.cons_append, List.nil_append] at h' hn
+  rw [h']
+  -- the flag re-used for the spurious message is the one of the message before it
+  have hc : a'.compressed = false := by
+    have h2 := fragmentation_invariant_open_stream cd .identity [⟨false, [0x41], [0x41]⟩] [[0, 0, 0, 0, 1, 0x41]] hok
+      (by simp [stream, GMsg.frame, putBe32])
+    simp only [runFrames] at hn h2
+    obtain ⟨b', hb, hb2, _⟩ := h2
+    simp only [Res.andThen, hb] at hn
+    rw [data_nil_true cd b' hb2] at hn
+    have hab : b' = a' := by simpa using hn
+    subst hab
+    unfold data at hb
+    rw [loop_frame cd false _ ⟨false, [0x41], [0x41]⟩ [] rfl (by simp [Adapter.app, fresh, GMsg.frame, putBe32])
+      (by simp [GMsg.ok, decode])] at hb
+    have := congrArg Res.next hb
+    simp [Adapter.afterDelivery] at this
+    rw [← this]
+  simp [expCalls, hc]
+
+/-! ## 4. pass-through: the destination receives the same messages in the same wire format -/
+
+/-- The DATA payloads reaching the sink, concatenated, are the byte stream of the same messages
+with the same compressed flags, each payload recompressed by the emitter; uncompressed messages
+are byte-identical. -/
+theorem passthrough_sink_stream (cd : Codec) (e : Enc) (ms : List GMsg) (es : Bool) :
+    (((expCalls ms es).map (emit cd e)).map Prod.fst).flatten = stream (ms.map (GMsg.reenc cd e))
+    ∧ (ms.map (GMsg.reenc cd e)).map (·.compressed) = ms.map (·.compressed)
+    ∧ (ms.map (GMsg.reenc cd e)).map (·.plain) = ms.map (·.plain)
+    ∧ ∀ m ∈ ms, m.compressed = false → (m.reenc cd e).frame = (⟨false, m.plain, m.plain⟩ : GMsg).frame := by
+  refine ⟨sink_payloads cd e ms es, by simp [GMsg.reenc], by simp [GMsg.reenc], ?_⟩
+  intro m _ hc
+  simp [GMsg.reenc, encode, hc, GMsg.frame]
+
+/-- Wire round trip, end to end: cut the stream of `ms` in any way (END_STREAM on the last,
+non-empty, frame), run adapter → pass-through processor → emitter; whatever reads the sink's DATA
+with the same grammar and the same library (here: a fresh adapter of the next hop, in one piece or
+— by `frames_eq_batch` — cut in any way) is shown exactly the same messages with the same
+compressed flags. Needs the library round trip and that recompressed payloads fit a uint32. -/
+theorem passthrough_wire_roundtrip (cd : Codec) (hrt : cd.RoundTrip) (e : Enc) (ms : List GMsg) (fs : List Bytes)
+    (hok : ∀ m ∈ ms, m.ok cd e) (hne : fs ≠ []) (hfl : fs.flatten = stream ms)
+    (hlast : fs.getLast? ≠ some [])
+    (hlen : ∀ m ∈ ms, (encode cd e m.compressed m.plain).length < 4294967296) (es' : Bool) :
+    ∃ b', data cd (fresh e) (((sinkFrames cd e (runFrames cd (fresh e) fs true)).map Prod.fst).flatten) es'
+        = ⟨expCalls ms es', some b'⟩ := by
+  obtain ⟨a', h, _, _⟩ := fragmentation_invariant_partial cd e ms fs hok hne hfl hlast
+  have hms : ms ≠ [] := by
+    intro h0
+    have := flatten_ne_nil_of_getLast fs hne hlast
+    rw [hfl, h0] at this
+    exact this rfl
+  rw [h]
+  simp only [sinkFrames]
+  rw [sink_payloads]
+  obtain ⟨b', hb, _, _⟩ := batch_shows_messages cd e (ms.map (GMsg.reenc cd e)) es' (by simpa using hms)
+    (by
+      intro m hm
+      obtain ⟨m0, hm0, rfl⟩ := List.mem_map.mp hm
+      exact reenc_ok cd hrt e m0 (hlen m0 hm0))
+  exact ⟨b', by rw [hb, expCalls_reenc]⟩
+
+/-! ## 5. end-of-stream exactly once, after the last message -/
+
+/-- The sink receives one DATA frame per message; END_STREAM is on the last one and on no other. -/
+theorem eos_exactly_once_after_last (cd : Codec) (e : Enc) (ms : List GMsg) (fs : List Bytes)
+    (hok : ∀ m ∈ ms, m.ok cd e) (hne : fs ≠ []) (hfl : fs.flatten = stream ms)
+    (hlast : fs.getLast? ≠ some []) :
+    (sinkFrames cd e (runFrames cd (fresh e) fs true)).map Prod.snd
+      = List.replicate (ms.length - 1) false ++ [true]
+    ∧ (sinkFrames cd e (runFrames cd (fresh e) fs true)).length = ms.length := by
+  obtain ⟨a', h, _, _⟩ := fragmentation_invariant_partial cd e ms fs hok hne hfl hlast
+  have hms : ms ≠ [] := by
+    intro h0
+    have := flatten_ne_nil_of_getLast fs hne hlast
+    rw [hfl, h0] at this
+    exact this rfl
+  rw [h]
+  exact ⟨sink_flags cd e ms true hms, by simp [sinkFrames, expCalls_length]⟩
+
+/-- With the END_STREAM on a separate empty frame (F11b class) the end-of-stream still reaches
+the sink exactly once and last — on the spurious message. -/
+theorem eos_exactly_once_empty_frame_partial (cd : Codec) (e : Enc) (ms : List GMsg) (fs : List Bytes)
+    (hok : ∀ m ∈ ms, m.ok cd e) (hfl : fs.flatten = stream ms) :
+    (sinkFrames cd e (runFrames cd (fresh e) (fs ++ [[]]) true)).map Prod.snd
+      = List.replicate ms.length false ++ [true] := by
+  obtain ⟨a', h, _⟩ := empty_eos_frame_partial cd e ms fs hok hfl
+  rw [h]
+  cases ms with
+  | nil => simp [sinkFrames, expCalls, emit]
+  | cons m ms =>
+    have := sink_flags cd e (m :: ms) false (by simp)
+    simp only [sinkFrames, List.map_append]
+    rw [this]
+    simp [emit, List.replicate_succ']
+
+/-! ## 6. streams that are not gRPC pass through untouched -/
+
+/-- On a stream on which no header block with `content-type: application/grpc` has been seen,
+every HEADERS and DATA frame of either direction reaches its sink as it is, in order. -/
+theorem non_grpc_untouched (cd : Codec) (fs : List Frame) (hf : ∀ f ∈ fs, f.announcesGrpc = false) :
+    Stream.run cd {} fs = fs.map Frame.forwarded :=
+  run_not_grpc cd {} fs rfl hf
+
+/-- The two directions do not interfere: a DATA frame changes only its own adapter. -/
+theorem directions_independent (cd : Codec) (s s' : Stream) (b : Bytes) (es : Bool) (evs : List Ev)
+    (h : Stream.data cd s .c2s b es = (some s', evs)) : s'.s2c = s.s2c ∧ s'.enabled = s.enabled := by
+  unfold Stream.data at h
+  by_cases hen : s.enabled = false
+  · simp [hen] at h; rw [← h.1]; simp
+  · simp only [hen] at h
+    cases hn : (Grpc.data cd (s.get .c2s) b es).next with
+    | none => simp [hn] at h
+    | some a' =>
+      simp [hn] at h
+      rw [← h.1]; simp [Stream.set]
+
+/-! ## 7. Facts regenerated from the source on every check (finite tables: `decide`) -/
+
+/-- adapter.Header tests `content-type` = `application/grpc` (exactly) and reads `grpc-encoding` -/
+theorem facts_grpc_header_tests : Generated.Grpc.headerTests =
+    [("h.Name", "content-type"), ("h.Value", "application/grpc"), ("h.Name", "grpc-encoding")] := by decide
+
+theorem facts_grpc_encoding_names : Generated.Grpc.encodingNames =
+    [("identity", "Identity"), ("gzip", "Gzip"), ("deflate", "Deflate"), ("snappy", "Snappy")] := by decide
+
+/-- the message prefix is 5 bytes (flag + big-endian uint32), as in the model -/
+theorem facts_grpc_prefix_len : Generated.Grpc.prefixLen = 5 := by decide
+
+/-- For every encoding the emitter writes the format the adapter reads (the structural side of
+`Codec.RoundTrip`; F11c was snappy-framed in, snappy-block out). -/
+theorem facts_grpc_codec_symmetric :
+    Generated.Grpc.decodeCalls.map (fun r => (r.1, formatsOf r.2))
+      = Generated.Grpc.encodeCalls.map (fun r => (r.1, formatsOf r.2))
+    ∧ Generated.Grpc.decodeCalls.map (fun r => (r.1, formatsOf r.2))
+      = [("Identity", []), ("Gzip", ["gzip"]), ("Deflate", ["deflate"]), ("Snappy", ["snappy-framed"])] := by
+  decide
+
+/-! ## Non-vacuity: the hypotheses above are satisfiable -/
+
+/-- a library that stores data uncompressed satisfies the round-trip hypothesis -/
+def storeCodec : Codec := ⟨fun _ x => x, fun _ x => some x⟩
+
+example : storeCodec.RoundTrip := fun _ _ => rfl
+
+/-- a two-message stream (one flagged compressed, one empty) satisfying `GMsg.ok`, cut into
+three frames inside the prefix and inside the payload, last frame non-empty -/
+example : ∃ (ms : List GMsg) (fs : List Bytes), (∀ m ∈ ms, m.ok storeCodec .gzip) ∧ fs ≠ [] ∧
+    fs.flatten = stream ms ∧ fs.getLast? ≠ some [] ∧ ms.length = 2 :=
+  ⟨[⟨true, [7, 8], [7, 8]⟩, ⟨false, [], []⟩], [[1, 0, 0], [0, 2, 7], [8, 0, 0, 0, 0, 0]],
+    by intro m hm; simp at hm; rcases hm with h | h <;> subst h <;> simp [GMsg.ok, decode, storeCodec],
+    by simp, by simp [stream, GMsg.frame, putBe32], by simp, rfl⟩
+
+/-- instance: the zero-length message whose prefix ends the END_STREAM frame is delivered with
+the end-of-stream (the input of F11a, fixed in the code and hence in the model) -/
+example (cd : Codec) : (runFrames cd (fresh .identity) [[0, 0, 0], [0, 0]] true).calls = [⟨false, [], true⟩] := by
+  obtain ⟨a', h, _⟩ := fragmentation_invariant_partial cd .identity [⟨false, [], []⟩] [[0, 0, 0], [0, 0]]
+    (by intro m hm; simp at hm; subst hm; simp [GMsg.ok, decode]) (by simp)
+    (by simp [stream, GMsg.frame, putBe32]) (by simp)
+  rw [h]; simp [expCalls]
+
+end Martian.Props.C11
